@@ -14,6 +14,7 @@ from .world import StaleWorld, HarnessBug
 
 PIPE_CAP = 65536
 PIPE_BUF = 4096
+SIM_MAX_MSG = 1000000     # simulated upper bound of one send_bytes message
 RECURSIVE_MUTEX, SEMAPHORE = 0, 1
 
 
@@ -118,6 +119,10 @@ class SimConnection(_mpc.Connection):
                                "_recv", (_sim_read,))
 
     def _send_bytes(self, buf):
+        if len(buf) > SIM_MAX_MSG:
+            # stands for the platform limit of Connection.send_bytes (struct.error on an over-long message)
+            import struct
+            raise struct.error("'i' format requires -2147483648 <= number <= 2147483647")
         # bookkeeping only (which message is in flight, how much of it is in the pipe); framing is stdlib's
         pipe = self._pipe
         self._owner.msg_in_progress = (self, pipe.written if pipe is not None else 0, len(buf))
@@ -399,6 +404,7 @@ class SimLock:
         self._held = False
         self._owner = None
         self._w.version += 1
+        self._w.sched_point()       # a thread switch right after a release is what the GIL does most readily
 
     def locked(self):
         return self._held
@@ -446,6 +452,7 @@ class SimRLock:
         if self._count == 0:
             self._owner = None
             self._w.version += 1
+            self._w.sched_point()
 
     __enter__ = acquire
 
